@@ -337,6 +337,30 @@ pub fn run(opts: &Opts) -> Report {
                 Err(m) => rep.fail("panic", &format!("vocabulary/merge/{}/panic", name), ctx, "merged", &m),
             }
         }
+        // a key of the second document whose identifier has the shape of a temporary one (`!K0`, `!K1`): one more key, not
+        // the key with that handle under another name
+        for tid in ["!K0", "!K1", "!K7"] {
+            rep.count("dedup-path:merge:key-named-like-a-temporary-identifier");
+            let first = doc(&item(Some("D1"), "pos", "noun"));
+            let second = doc(&item(Some("D2"), tid, "x")).replace("{\"@type\": \"DataKey\", \"@id\": \"pos\"}, {\"@type\": \"DataKey\", \"@id\": \"lemma\"}", &format!("{{\"@type\": \"DataKey\", \"@id\": \"{}\"}}", tid));
+            let ctx = vec![format!("first document: {}", first), format!("merged into it: {}", second)];
+            let r = guarded(std::panic::AssertUnwindSafe(|| -> Result<(Vec<String>, Vec<String>), StamError> {
+                let mut st = AnnotationStore::from_str(&first, Config::default())?;
+                st.merge_json_str(&second)?;
+                let ds = st.dataset("set").expect("dataset");
+                let mut keys: Vec<String> = ds.keys().map(|k| k.id().unwrap_or("?").to_string()).collect(); keys.sort();
+                let mut items: Vec<String> = ds.data().map(|d| format!("{}:{}={:?}", d.id().unwrap_or("-"), d.key().id().unwrap_or("?"), d.value())).collect(); items.sort();
+                let mut bad = audit(&st);
+                bad.extend(keys.iter().map(|k| format!("key {}", k)));
+                Ok((bad, items))
+            }));
+            let want = ({ let mut k = vec!["key lemma".to_string(), "key pos".to_string(), format!("key {}", tid)]; k.sort(); k }, { let mut i = vec!["D1:pos=String(\"noun\")".to_string(), format!("D2:{}=String(\"x\")", tid)]; i.sort(); i });
+            match r {
+                Ok(Ok(got)) => { let mut g = got.clone(); g.0.sort(); if g != want { rep.fail("oracle", "vocabulary/merge/key-named-like-a-temporary-identifier", ctx, &format!("{:?}", want), &format!("{:?}", g)); } }
+                Ok(Err(e)) => rep.fail("oracle", "vocabulary/merge/key-named-like-a-temporary-identifier/refused", ctx, "merged", &format!("{}", e)),
+                Err(m) => rep.fail("panic", "vocabulary/merge/key-named-like-a-temporary-identifier/panic", ctx, "merged", &m),
+            }
+        }
     }
     // ---------- one dataset as a vocabulary under insertions, removals and merges: the Lean model `Vocab` (the key -> data
     // index the code keeps), and its invariants checked on the implementation's own dump ----------
